@@ -686,3 +686,10 @@ func dedupStrings(xs []string) []string {
 	}
 	return out
 }
+
+
+// hostKey: the key of the function f belongs to for who-may-write tables: a
+// private single-caller helper counts as the function it was split from.
+func (c *Ctx) hostKey(f *ssa.Function) string {
+	return funcKey(c.hostRootOf(f))
+}
